@@ -654,6 +654,7 @@ def run_kernel_correspondence(chk, prop: str | None = None, budget_cases: int | 
     bad = bad[:200]
     models = models_for(chk, bad, f"{chk.prop}_diag")
     reported = 0
+    other_notes = 0
     for (case, res), (model, sane, supp) in zip(bad, models):
         inp = {k: case.get(k) for k in ("assignment", "formats", "sizes", "inputs")}
         payload = {"input": inp, "graph": res["problem"]["graph"], "real_status": res["status"],
@@ -685,8 +686,10 @@ def run_kernel_correspondence(chk, prop: str | None = None, budget_cases: int | 
                                    **payload})
                 reported += 1
         else:
-            chk.note(f"C01G: a disagreement of class {cls} (not {prop}'s concern) on '{case['assignment']}' "
-                     f"{json.dumps(case['formats'], sort_keys=True)}")
+            other_notes += 1
+            if other_notes <= 3:
+                chk.note(f"C01G: a disagreement of class {cls} (not {prop}'s concern) on '{case['assignment']}' "
+                         f"{json.dumps(case['formats'], sort_keys=True)}")
     for f in (BUILD / "cases").glob(f"c01g_p{os.getpid()}_*"):
         try:
             f.unlink()
